@@ -33,7 +33,7 @@ for _dt, _size in (("SINT", 1), ("INT", 2), ("DINT", 4), ("LINT", 8), ("DWORD", 
                f"masks = spec.logix.rmw_masks({_size}, [(bits[0], v1), (bits[1], v2), (bits[2], v3)])"],
         ensures=[f"result == spec.cip_codec.le_uint(seq, 2) + spec.logix.rmw_request(r.request_path, {_size}, masks[0], masks[1])",
                  "r._request_ids == [0, 1, 2]"],
-        props=["C02"], max_paths=20000)
+        props=["C02", "C03"], max_paths=20000)
 # what the target then does with those masks: exactly the addressed bits change
 lemma(
     id="rmw.changes_only_addressed_bit", bind={"v": ["True", "False"]}, params={"old": P.int(0, 2**32 - 1), "b": P.int(0, 31)},
